@@ -1,2 +1,3 @@
+pub mod decode;
 pub mod reflect;
 pub mod spirv;
